@@ -466,6 +466,32 @@ def run(chk):
     ok = all(_pat.guarded(n, "not self.filters") is not None for n in early)
     chk.ob("O11.3", "early return only without filters", ok, early[0] if early else oa, "")
 
+    # the ONLY reason to remove an element is the match routine: the statements that queue an element for removal are written under exactly one explicit condition, the call of
+    # _filter_out_match on that very element (the emptied-parallel clean-up, keyed by the emptiness test, is decided by O11.2)
+    from sa import pat as _p11
+    n_q = 0
+    for lp in [n for n in walk_body(oa) if isinstance(n, ast.For) and isinstance(n.target, ast.Name)]:
+        lv = lp.target.id
+        for c in [c for c in ast.walk(lp) if isinstance(c, ast.Call) and last_attr(c.func) == "append" and c.args and u(c.args[0]) == lv and source.enclosing(c, ast.For) is lp]:
+            fs = _p11.fact_nodes(c, stop=lp, path_sensitive=False)
+            if any(isinstance(f_, ast.Call) and last_attr(f_.func) == "isinstance" for f_ in fs) or any("len(" in u(f_) for f_ in fs):
+                continue  # the emptiness clean-up
+            n_q += 1
+            ok = len(fs) == 1 and _p11.is_(fs[0], f"self.{fo.name}({lv})")
+            chk.ob("O11.3", f"`{lv}` is queued for removal iff the match routine says so (no further condition)", ok, c, f"written under {[u(f_) for f_ in fs]}" +
+                   ("" if ok else " — an element the filters select for removal stays in the schedule (or one they keep is removed)"), key=f"{_L}:TaskFilterTrackProcessor.on_after_load_track:queue:{lv}")
+    chk.ob("O11.3", "removal queues located (top-level elements and leaves)", n_q >= 2, oa, f"{n_q} site(s)")
+    # the match decision is taken per OBJECT: tasks compare equal when name / operation / settings agree although their tags differ, so a memoised matches() (lru_cache, cache)
+    # replays one task's decision for another
+    for cname in ("Task", "Parallel", "TaskNameFilter", "TaskOpTypeFilter", "TaskTagFilter"):
+        m_ = trk.methods(trk.cls(cname)).get("matches")
+        if m_ is None:
+            continue
+        decs = [dotted(d_.func if isinstance(d_, ast.Call) else d_) or "" for d_ in m_.decorator_list]
+        memo = [d_ for d_ in decs if d_.split(".")[-1] in ("lru_cache", "cache", "cached_property", "memoize")]
+        chk.ob("O11.1", f"{cname}.matches is evaluated for every object (not memoised by value)", not memo, m_, "" if not memo else f"@{memo[0]}: the cache key uses __eq__/__hash__, which ignore tags",
+               key=f"esrally/track/track.py:{cname}.matches:not-memoised")
+
     # ---- O11.4 consumer agreement ----------------------------------------------------------------------------------------------------------------------------
     chk.rule("O11.4", "the driver can execute and report every remaining step: one progress entry per join point (C02/O2.1) and at least one client row even for an emptied schedule", 2,
              "filters leaving an empty schedule / empty element crash the driver at start or in progress reporting")
